@@ -247,10 +247,14 @@ Proof.
     + apply Forall_app. split; [exact Ft | constructor; [split; assumption | constructor]].
   - intros fp ss P. apply paren_good. intros fb sb. destruct Hwf as (Hwv & Hku & Hupd). destruct Hlx as (Hlv & Hlead).
     rewrite body_un. destruct (op_kind o) eqn:Ek.
-    + destruct (proj1 IHv Hwv Hlv false false (LPrefix - 1)) as [Gv Fv]. split; [|constructor; [exact I | exact Fv]].
+    + destruct (proj1 IHv Hwv Hlv (op_eqb o UYield && fb) false (op_level o - 1)) as [Gv Fv]. split; [|constructor; [exact I | exact Fv]].
       apply G_pre; [exact Gv | exact Ek|]. intro Hu.
       assert (Hio : is_update o = true) by (destruct o; try discriminate; reflexivity).
       specialize (Hupd Hio). specialize (Hlead Hu).
+      assert (Ho : o = UPreDec \/ o = UPreInc) by (destruct o; try discriminate; auto).
+      assert (Eo : print_items (op_eqb o UYield && fb) false (op_level o - 1) v = print_items false false (LPrefix - 1) v)
+        by (destruct Ho; subst o; reflexivity).
+      rewrite Eo. clear Eo Gv Fv Ho.
       destruct v as [s| | |t s| | | |t i| | | |]; try discriminate; [exact I| |]; cbn [Token.print_items]; simpl in Hlead;
         pose proof (lead_head t (tgt_level (LPrefix - 1)) (tgt_level_TT _) Hlead) as H;
         (destruct (print_items false false (tgt_level (LPrefix - 1)) t) as [|x l0]; [destruct H|]); destruct x; try destruct H; exact I.
